@@ -138,6 +138,29 @@ def callMethod (recv : JSVal) (name : String) (args : List JSVal) : Option JSVal
 
 abbrev Env := List (String × JSVal)
 
+/-- the binary operators other than `&&` / `||` on two values -/
+def binPrim (op : BinOp) (a b : JSVal) : Option JSVal :=
+  match op, a, b with
+  | .add, .num x, .num y => pure (.num (x + y))
+  | .add, .str x, .str y => pure (.str (x ++ y))
+  | .add, .str x, .num y => do pure (.str (x ++ (← numToString y)))
+  | .add, .num x, .str y => do pure (.str ((← numToString x) ++ y))
+  | .sub, .num x, .num y => pure (.num (x - y))
+  | .mul, .num x, .num y => pure (.num (x * y))
+  | .div, .num x, .num y => if y == 0 then none else pure (.num (x / y))
+  | .mod, .num x, .num y => do pure (.num (← jsRem x y))
+  | .lt, .num x, .num y => pure (.bool (x < y))
+  | .le, .num x, .num y => pure (.bool (x ≤ y))
+  | .gt, .num x, .num y => pure (.bool (x > y))
+  | .ge, .num x, .num y => pure (.bool (x ≥ y))
+  | .lt, .str x, .str y => pure (.bool (x < y))
+  | .le, .str x, .str y => pure (.bool (x < y || x == y))
+  | .gt, .str x, .str y => pure (.bool (y < x))
+  | .ge, .str x, .str y => pure (.bool (y < x || x == y))
+  | .eq, x, y | .seq, x, y => if sameType x y then do pure (.bool (← strictEq x y)) else none
+  | .ne, x, y | .sne, x, y => if sameType x y then do pure (.bool (!(← strictEq x y))) else none
+  | _, _, _ => none
+
 set_option linter.unusedVariables false in
 /-- the reference evaluator; recursion is on the fuel (total), `evalFuel` is far above any nesting in use -/
 def evalF : Nat → Env → Expr → Option JSVal
@@ -159,26 +182,7 @@ def evalF : Nat → Env → Expr → Option JSVal
     | .lor => if toBool a then pure a else evalF fuel ρ r
     | _ =>
       let b ← evalF fuel ρ r
-      match op, a, b with
-      | .add, .num x, .num y => pure (.num (x + y))
-      | .add, .str x, .str y => pure (.str (x ++ y))
-      | .add, .str x, .num y => do pure (.str (x ++ (← numToString y)))
-      | .add, .num x, .str y => do pure (.str ((← numToString x) ++ y))
-      | .sub, .num x, .num y => pure (.num (x - y))
-      | .mul, .num x, .num y => pure (.num (x * y))
-      | .div, .num x, .num y => if y == 0 then none else pure (.num (x / y))
-      | .mod, .num x, .num y => do pure (.num (← jsRem x y))
-      | .lt, .num x, .num y => pure (.bool (x < y))
-      | .le, .num x, .num y => pure (.bool (x ≤ y))
-      | .gt, .num x, .num y => pure (.bool (x > y))
-      | .ge, .num x, .num y => pure (.bool (x ≥ y))
-      | .lt, .str x, .str y => pure (.bool (x < y))
-      | .le, .str x, .str y => pure (.bool (x < y || x == y))
-      | .gt, .str x, .str y => pure (.bool (y < x))
-      | .ge, .str x, .str y => pure (.bool (y < x || x == y))
-      | .eq, x, y | .seq, x, y => if sameType x y then do pure (.bool (← strictEq x y)) else none
-      | .ne, x, y | .sne, x, y => if sameType x y then do pure (.bool (!(← strictEq x y))) else none
-      | _, _, _ => none
+      binPrim op a b
   | fuel + 1, ρ, .cond c a b => do
     let v ← evalF fuel ρ c
     if toBool v then evalF fuel ρ a else evalF fuel ρ b
